@@ -25,6 +25,14 @@ CLAIMED = {
    text="Lean theorems: any trace-back whose steps realise the recurrence (whatever tie-breaking) is a contiguous monotone path with steps (1,1),(1,0),(0,1), in band/below max_step, starting in the psi-relaxed corner, whose cost incl. penalties equals the cell value; dtw.best_path's deterministic trace-back from any finite cell (custom start included) is such a path; from an optimal end cell its cost is the DTW distance; path length <= len1+len2-1. Correspondence: every path from warping_path, warping_path_fast, best_path on Python/C matrices, best_path_compact, best_path2, warp, custom start (Python, C dtw_best_path_customstart), ndim is re-validated by an independent definition, decided by the model relation IsBack and (Python routes) compared exactly with the model's trace-back.",
    note="Trusted: as C01. The trace-back is modelled on the exact matrix; the C region walk over the compact layout is tied by correspondence. Selection of the end cell under psi follows the -1 marking; known finding C05-BESTPATH-NOPSI (best_path(paths) without settings, one-sided psi, corner-only marking).",
    technique="Lean 4 proof (telescoping over the recurrence, strong induction on the trace-back) + differential correspondence", ref="§6 C05"),
+ "C06": dict(
+   text="Lean theorems: the C double loop and the Python loops enumerate the same pairs in the same (row-major) order; _distance_matrix_length and dtw_distances_length equal the number of selected pairs for every valid block (incl. blocks selecting no pair, rectangular blocks, no block: n(n-1)/2); distance_array_index addresses the pair's element; slots are assigned consecutively. Correspondence: all blocks on n<=5 (7 thorough, sampled above 4) x compact/square/only_triu x Python/C x list/2-D/3-D containers x ndim with tagged series, lengths via Python/Cython/C, random settings vs single-pair distances.",
+   note="Trusted: as C01; NumPy fancy indexing/triu_indices semantics in distances_array_to_matrix (validated, not modelled); the per-pair kernel is C01/C02.",
+   technique="Lean 4 proof (list combinatorics, omega) + exhaustive-small differential correspondence", ref="§6 C06"),
+ "C07": dict(
+   text="Lean theorems: iterations of the parallel loops write disjoint consecutive slot ranges, slot k receives the k-th pair of the serial enumeration, and ANY permutation of the write events (any thread count, chunking, schedule, interleaving) yields the serial output array; plus obligations on the plan re-extracted from dd_dtw_openmp.c on every run (all assigned variables private or block-local; loop header, start column and slot expressions equal the modelled ones; prepare loop as transcribed). Correspondence: six exported *_parallel routines (ctypes) with 1,2,3,7,16,64 threads vs serial bit-exact; Python API OpenMP / multiprocessing (C and Python kernels) vs serial incl. asymmetric psi.",
+   note="Partial by nature: re-entrancy of the real kernel (no hidden statics), the OpenMP runtime honouring private(), and multiprocessing.Pool.map order preservation are assumptions; real interleavings are only sampled. The translator handles a C subset and fails closed.",
+   technique="Lean 4 proof (permutation invariance of writes to distinct slots) + translator-regenerated plan obligations (decide) + differential correspondence", ref="§6 C07"),
 }
 PENDING_REASON = "check under construction in this round (not yet registered); the technique applies, see DESIGN.md §6"
 
